@@ -13,6 +13,7 @@ From SV Require Import proofs.CleanDirs.
 From SV Require Import proofs.CleanOptional.
 From SV Require Import proofs.CleanLinks.
 From SV Require Import proofs.CleanPrune.
+From SV Require Import proofs.CleanPruneFull.
 Import ListNotations.
 Open Scope N_scope.
 
@@ -234,11 +235,25 @@ Proof. exact optional_outputs_removed_any_kind. Qed.
 (* "... together with the directories StepUp created for it that became empty", above the marked directories:
    _prune_empty_dirs is translated statement by statement (pop the deepest, remove it if it is an empty directory,
    push its parent; flag prune_visits_once: is a path examined at most once?).  Statement: in a tree as a file system
-   has it (fs_closedb), whenever a directory is removed its parent -- unless that is the project root -- is not left
+   has it (fs_closedb: whatever exists has no directory part or lies in a directory that exists), whenever a
+   directory is removed its parent -- unless that is the project root -- is not left
    behind as an empty directory; by induction up the tree every ancestor that became empty is gone.
    The variant with a `seen` set is REFUTED (two sibling directories r/a, r/b below r: r is examined while r/a is
    still there, and skipped when it is pushed again after r/a went); checked on every run. *)
-Definition C07_emptied_parents_pruned_full : Prop := emptied_parents_pruned false.
+Theorem C07_emptied_parents_pruned_full : emptied_parents_pruned false.
+Proof. exact emptied_parents_pruned_holds. Qed.
+
+(* The same for the whole cleanup of the code as it is (the file removals keep the tree closed): whenever
+   remove_deletable_files removes a directory x, the parent of x -- unless it is the project root -- is not left behind
+   as an empty directory.  With C07_dirs_pruned_when_empty_full (no MARKED directory is left empty) this is the
+   induction up the tree: a marked directory that became empty is removed, then its parent if that became empty,
+   and so on; every ancestor that became empty is gone. *)
+Theorem C07_rdf_emptied_parents_pruned :
+  forall q f, fs_closedb f = true ->
+    forall x, In x (r_dirs (remove_deletable_files q f)) -> parent_ok (dirname x) = true ->
+      ~ (fs_get (r_fs (remove_deletable_files q f)) (dirname x) = Some FDir /\
+         dir_empty (r_fs (remove_deletable_files q f)) (dirname x) = true).
+Proof. exact rdf_emptied_parents_pruned. Qed.
 
 Theorem C07_emptied_parents_pruned_seen_set_refuted : ~ emptied_parents_pruned true.
 Proof. exact emptied_parents_pruned_seen_set_refuted. Qed.
